@@ -696,6 +696,10 @@ def c07(ctx):
     ctx.add(spawn_join(fx))
     ctx.add(pool_join_before_ok(fx))
     ctx.add(p_kinds.specials_never_opened(fx))
+    # no spin: every retry loop over a byte count ends when no progress is made
+    import r_short, p_gate
+    r_short.run(fx, "A", reach=p_gate.driver_reach(fx))
+    ctx.add(r_short.run.zero_progress)
     # error paths return (rather than park): error discipline of the thread bodies
     ctx.add([o for o in r_err.run(fx, crates=("libxcp",)) if o.fn in (WALKER, PF_WORKER, PB_DISPATCH, PF_COPY, PB_COPY)])
 
